@@ -86,7 +86,7 @@ int wrapped_main(int argc, char *argv[])
      { "dialect", 1, NULL, 'd' },
      { "help", 0, NULL, 'h'},
      { "listo", 1, NULL, 'l' },
-     { "dump-token-maps", 0, NULL, 'D' },
+     { "dump-token-maps", 1, NULL, 'D' }, /* takes a file name, like -D */
      { NULL, 0, NULL, 0 },
     };
   if (progname == NULL)
